@@ -224,7 +224,22 @@ class A_LND(Adapter):
         loss = {"default": None, "uniform": m.uniform_loss}[self.spec.get("loss", "default")]
         if self.spec.get("vec"):
             self.specials = ([0.0, 0.0], [-0.0, 0.0])
-        return LearnerND(f_nd, tuple((-1.0, 1.0) for _ in range(dim)), loss_per_simplex=loss)
+        return LearnerND(f_nd, self.box(dim), loss_per_simplex=loss)
+
+    def box(self, dim=2):
+        """Per-axis ranges: spec["bounds"] = [[lo, hi], ...] (default the cube [-1, 1]^dim).  Ranges that differ from axis
+        to axis -- also disjoint ones -- are what exposes code that uses the wrong axis' range."""
+        b = self.spec.get("bounds")
+        return tuple((float(lo), float(hi)) for lo, hi in b) if b else tuple((-1.0, 1.0) for _ in range(dim))
+
+    def from_unit(self, u):
+        """A point of the cube [-1, 1]^d mapped affinely into the learner's box."""
+        box = self.box(len(u))
+        return tuple(lo + (hi - lo) * (x + 1.0) / 2.0 for x, (lo, hi) in zip(u, box))
+
+    def to_unit(self, p):
+        box = self.box(len(p))
+        return tuple(2.0 * (float(x) - lo) / (hi - lo) - 1.0 for x, (lo, hi) in zip(p, box))
 
     def point(self, p):
         return tuple(float(x) for x in p)
@@ -233,29 +248,27 @@ class A_LND(Adapter):
         return canon(tuple(float(x) for x in p))
 
     def value(self, p):
-        v = f_nd(tuple(p))
+        v = f_nd(self.to_unit(tuple(p)) if self.spec.get("bounds") else tuple(p))
         return [v, 0.5 - v] if self.spec.get("vec") else v
 
-    def interior_point(self, rng, l):
+    def _fresh(self, l, gen):
         for _ in range(20):
-            p = tuple(rng.uniform(-0.55, 0.55) for _ in range(l.ndim))
+            p = self.from_unit(gen()) if self.spec.get("bounds") else gen()
             if p not in l.data and p not in l.pending_points:
                 return p
         return None
+
+    def interior_point(self, rng, l):
+        nd = len(self.box(getattr(l, "ndim", 2)))
+        return self._fresh(l, lambda: tuple(rng.uniform(-0.55, 0.55) for _ in range(nd)))
 
     def outer_point(self, rng, l):
-        for _ in range(20):
-            p = tuple(rng.choice([-1, 1]) * rng.uniform(0.7, 0.95) for _ in range(l.ndim))
-            if p not in l.data and p not in l.pending_points:
-                return p
-        return None
+        nd = len(self.box(getattr(l, "ndim", 2)))
+        return self._fresh(l, lambda: tuple(rng.choice([-1, 1]) * rng.uniform(0.7, 0.95) for _ in range(nd)))
 
     def rand_point(self, rng, l):
-        for _ in range(20):
-            p = tuple(rng.uniform(-0.97, 0.97) for _ in range(l.ndim))
-            if p not in l.data and p not in l.pending_points:
-                return p
-        return None
+        nd = len(self.box(getattr(l, "ndim", 2)))
+        return self._fresh(l, lambda: tuple(rng.uniform(-0.97, 0.97) for _ in range(nd)))
 
 
 class A_L2D(A_LND):
@@ -264,14 +277,7 @@ class A_L2D(A_LND):
 
     def make(self):
         from adaptive import Learner2D
-        return Learner2D(f_nd, ((-1.0, 1.0), (-1.0, 1.0)))
-
-    def rand_point(self, rng, l):
-        for _ in range(20):
-            p = (rng.uniform(-0.97, 0.97), rng.uniform(-0.97, 0.97))
-            if p not in l.data and p not in l.pending_points:
-                return p
-        return None
+        return Learner2D(f_nd, self.box(2))
 
 
 class A_Avg(Adapter):
@@ -692,6 +698,8 @@ def apply_op(ad: Adapter, l, op):
             l.tell_pending(ad.point(op[1]))
         elif k == "remove_unfinished":
             l.remove_unfinished()
+        elif k == "set_strategy":
+            l.strategy = str(op[1])         # BalancingLearner: documented as changeable while running
         else:
             raise ValueError(k)
         return "ok"
@@ -725,6 +733,8 @@ def gen_op(ad: Adapter, l, rng, handed, weights=None):
     """Next legal op, chosen while looking at the real learner.  `handed` is
     the list of points handed out by committing asks and not yet told."""
     w = weights or {}
+    if ad.spec["kind"] == "Bal" and rng.random() < w.get("switch", 0.05):
+        return ["set_strategy", rng.choice(STRATEGIES)]
     r = rng.random()
     pend_pts = list(handed)
     a = w.get("ask", 0.30)
@@ -826,6 +836,28 @@ def hull_ops(ad, l, rng):
             for p in got[:2]:
                 out = yield ["tell", p, plain(ad.value(ad.point(p)))]
             got = got[2:]
+
+
+def switch_ops(ad, l, rng):
+    """BalancingLearner only: work under one strategy (so that its caches are filled the way that strategy fills them,
+    e.g. non-committing child asks under 'loss_improvements'), switch to another one, go on.  All 16 ordered pairs occur
+    over the cases (the first strategy is the configuration's, or a switch right at the start)."""
+    if ad.spec["kind"] != "Bal":
+        return
+    if rng.random() < 0.5:
+        yield ["set_strategy", rng.choice(STRATEGIES)]
+    got = []
+    for phase in range(rng.choice([2, 2, 3])):
+        for n_ask, n_tell in [(rng.choice([1, 2, 3]), rng.choice([1, 2])), (rng.choice([1, 2, 4]), rng.choice([0, 1, 3]))]:
+            out = yield ["ask", n_ask, True]
+            if is_exc(out):
+                return
+            got += list(out[1])
+            for p in got[:n_tell]:
+                yield ["tell", p, plain(ad.value(ad.point(p)))]
+            got = got[n_tell:]
+        yield ["set_strategy", rng.choice(STRATEGIES)]
+    out = yield ["ask", rng.choice([2, 3, 5]), True]
 
 
 def directed_ops(ad, l, rng):
